@@ -11,7 +11,7 @@ RULE = ("for value x=n/d and spec (digit limit, exponent threshold) the text T p
         "|v| <= |x| < |v|+u, sign correct, mark present iff |x| != |v|. Judged in-process on BigInt for every pair and re-judged "
         "by an independent Python oracle (Fraction) on a stratified sample. Workload: (n,d) grid, random m*10^k (k in -40..40), short mantissas times 10^e for e up to +-700 (every thirteenth exponent swept), terminating denominators of up to 1200 bits, "
         "terminating and repeating denominators, budget-boundary values (all nines, trailing zeros, integer part filling the budget) "
-        "x limits 1..20 x thresholds 1..15, plus the CLI spec (12,12). non-trivial = distinct (value,spec) pair where digits were "
+        "x limits 1..20 x thresholds 1..15, plus the CLI spec (12,12), plus digit budgets 21..257 on a share of the values. non-trivial = distinct (value,spec) pair where digits were "
         "actually cut off or the exponent form was used (counted by the in-process monitor)")
 TEXT = re.compile(r"^(-?)([0-9]+)(?:\.([0-9]+))?(…?)(?:e(-?[0-9]+))?$")
 
@@ -157,6 +157,12 @@ def run(tier, seed):
                 s2 = absorb(acc, rep, kind, "boundary/random %d" % i)
             rep = d.call({"op": "c08_list", "values": vals[:3000], "limits": [12], "thresholds": [12], "sample_every": 50}, timeout=3600)
             absorb(acc, rep, kind, "cli spec (12,12)")
+            # digit budgets far beyond the everyday ones (a fixed-size digit buffer that drops the digit on which it is flushed, seed
+            # C08-j: the 33rd fraction digit) on a share of the values and on long repeating expansions
+            big_limits = [21, 31, 32, 33, 34, 35, 40, 63, 64, 65, 66, 67, 100, 129, 257]
+            extra_vals = vals[:400] + [[str(rng.choice([1, -1]) * rng.randint(1, 10 ** rng.randint(1, 12))), str(rng.choice([7, 13, 17, 19, 23, 97, 9973, 7 * 10 ** rng.randint(1, 9)]))] for _ in range(200)]
+            rep = d.call({"op": "c08_list", "values": extra_vals, "limits": big_limits, "thresholds": [1, 8, 15, 40], "sample_every": 300}, timeout=3600)
+            absorb(acc, rep, kind, "digit budgets 21..257")
             if kind == "dbg":
                 for x in (s[:2] + s2[:3]):
                     acc.sample({"n": x[0], "d": x[1], "limit": x[2], "threshold": x[3], "printed": x[4]}, cap=5)
